@@ -82,6 +82,11 @@ func c10Values(types []int, events []uint32, ptss []int, segFor35 bool) []c19Val
 						v.PTS = uint64(p)
 					}
 					out = append(out, v)
+					if segFor35 && (t == 0x34 || t == 0x36) && ev == 1 {
+						// placement-opportunity starts that carry the optional sub-segment fields (num != expected)
+						v.Sub, v.SubNum, v.SubExp = true, 1, 2
+						out = append(out, v)
+					}
 				}
 			}
 		}
@@ -401,7 +406,7 @@ func c10Apply(s *c10State, op int, res *engine.Result, depth int) bool {
 }
 
 func c10ValKey(v c19Val) string {
-	return fmt.Sprintf("%x.%d.%v.%d.%d.%d", v.Type, v.Event, v.HasPTS, v.PTS, v.Num, v.Exp)
+	return fmt.Sprintf("%x.%d.%v.%d.%d.%d.%v.%d.%d", v.Type, v.Event, v.HasPTS, v.PTS, v.Num, v.Exp, v.Sub, v.SubNum, v.SubExp)
 }
 
 // c10Key: everything the tracker can read later (open list, the stale tail of its backing array,
@@ -594,7 +599,7 @@ func init() {
 	engine.Register(&engine.Property{
 		ID: "C10", Title: "SCTE-35 state tracker: open/closed bookkeeping is consistent for every history", Level: "model_checking",
 		Scenarios: []engine.ScenarioRunner{
-			c10Scenario("wide", "BFS to depth 3 over {Process(fresh descriptor) for 14 segmentation types (thorough: all 38 named types + one unnamed) x event id {1,2} x PTS {100,200,none} (x segment (1,1),(1,2) for PO ends), Close(fresh equal-valued descriptor) for every PTS-bearing value, Process(the same object again)}."+common,
+			c10Scenario("wide", "BFS to depth 3 over {Process(fresh descriptor) for 14 segmentation types (thorough: all 38 named types + one unnamed) x event id {1,2} x PTS {100,200,none} (x segment (1,1),(1,2) for PO ends, and PO starts with sub-segment fields 1/2), Close(fresh equal-valued descriptor) for every PTS-bearing value, Process(the same object again)}."+common,
 				"wide-quick", "wide-thorough", 3, 3),
 			c10Scenario("focused", "BFS to depth 4 (thorough 5, state-capped) over {Process for types {0x10,0x13,0x14,0x30,0x31,0x40,0x41,0x50,0x51} x event {1,2} x PTS {100,200}, Close(equal of the k-th internal element, k<4), Process(same object again)}."+common,
 				"focused", "focused", 4, 5),
